@@ -44,7 +44,12 @@ type node struct {
 	target     blob.Ref // share / delete target
 	hasSearch  bool
 	transitive bool
-	expires    time.Time // zero: no expiry
+	// expiry: the "expires" field as the model reads it (RFC 3339, doc/schema/share.md).
+	hasExpiry   bool      // an "expires" string is present
+	expires     time.Time // the instant it denotes (valid iff hasExpiry && !expiryBad)
+	expiresRaw  string    // the field as written
+	expiryLoose bool      // valid RFC 3339 that Go's strict parser rejects (lower-case t/z, second 60)
+	expiryBad   bool      // present but not an RFC 3339 date-time at all
 }
 
 type rawPart struct {
@@ -132,12 +137,33 @@ func parseNode(b sto.Blob, label string) *node {
 			json.Unmarshal(raw, &n.transitive)
 		}
 		if e := str("expires"); e != "" {
+			n.hasExpiry, n.expiresRaw = true, e
 			if t, err := time.Parse(time.RFC3339Nano, e); err == nil {
 				n.expires = t
+			} else if t, ok := looseRFC3339(e); ok {
+				n.expires, n.expiryLoose = t, true
+			} else {
+				n.expiryBad = true
 			}
 		}
 	}
 	return n
+}
+
+// looseRFC3339 reads the RFC 3339 date-times that Go's parser rejects although the grammar of
+// RFC 3339 section 5.6 admits them: lower-case "t" and "z", and second 60 (a leap second, which
+// denotes the instant one second after second 59).
+func looseRFC3339(e string) (time.Time, bool) {
+	u := strings.ToUpper(e)
+	if t, err := time.Parse(time.RFC3339Nano, u); err == nil {
+		return t, true
+	}
+	if i := strings.Index(u, ":60"); i == 16 {
+		if t, err := time.Parse(time.RFC3339Nano, u[:i]+":59"+u[i+3:]); err == nil {
+			return t.Add(time.Second), true
+		}
+	}
+	return time.Time{}, false
 }
 
 // world is a blob store with its model.
@@ -153,6 +179,12 @@ type world struct {
 	features    map[string]bool
 	now         time.Time
 	del         map[blob.Ref]bool // deletion status of every stored blob
+	// maxLen bounds the exhaustive chain enumeration over this store (0: 4 = three via blobs).
+	maxLen int
+	// clock labels the controlled clock the store is currently judged under ("" = the real clock).
+	clock string
+	// expClass: for the shares of the expiry stores, the class of their "expires" value.
+	expClass map[blob.Ref]string
 }
 
 func newWorld(id, template string) *world {
@@ -217,6 +249,11 @@ type verdict struct {
 	reason     string   // why not reachable (structural)
 	kinds      []string // link kind of every hop after the share target hop
 	transitive bool     // the share at the head of the chain is transitive
+	// mayRefuse: the chain is valid, but the share's "expires" is written in an RFC 3339 form
+	// that a strict parser may reject (lower-case t/z, second 60) or is no date at all: the claim
+	// may be treated as malformed (refused) or as the instant it denotes (served, since that
+	// instant is not before now).  Only "served although expired" and 5xx are judged.
+	mayRefuse bool
 }
 
 // judge decides chain = via blobs followed by the requested blob.
@@ -238,11 +275,12 @@ func (w *world) judge(chain []blob.Ref) verdict {
 	case w.deleted(s.ref):
 		v.reason = "deleted"
 		return v
-	case !s.expires.IsZero() && w.now.After(s.expires):
+	case s.hasExpiry && !s.expiryBad && w.now.After(s.expires):
 		v.reason = "expired"
 		return v
 	}
 	v.transitive = s.transitive
+	v.mayRefuse = s.hasExpiry && (s.expiryLoose || s.expiryBad)
 	if len(chain) == 1 {
 		v.reachable = true
 		return v
